@@ -8,9 +8,10 @@
    to its own non-empty documents and that equal IDs carry equal documents; `acked_of h` /
    `tried_of h` are the bulks h acknowledges / interrupts; `fetch`/`search` read through the index
    rebuilt by the last start. Histories may contain writes that fail with an I/O
-   error (HFault: the unit is rolled back, commit ce3aaa8) and crashes inside such a failed unit or
-   its rollback (HFaultCrash; `wf_hist` asks that the meta block of such a unit is incomplete). The
-   write path before ce3aaa8 is kept as run_f0 with the two C01_fault_v0_refuted_* examples. *)
+   error (HFault: the unit is rolled back, commits ce3aaa8/5db7f73) and crashes inside such a failed unit
+   or its rollback (HFaultCrash). The write path before ce3aaa8 is kept as run_f0 with the two
+   C01_fault_v0_refuted_* examples, the docs-first rollback order as fault_crash_v0 with
+   C01_rollback_order_v0_refuted. *)
 From Coq Require Import List NArith Arith.
 From C01 Require Import Model Proofs Proofs2 Proofs4 Proofs6 Proofs7 CaseDefs Witness.
 Import ListNotations.
@@ -204,15 +205,16 @@ Example C01_fault_v0_refuted_meta_write :
   wf_hist wdm wdd (w_fault_hist true 34) /\ run_f0 wdm (w_fault_hist true 34) = Panic.
 Proof. split; [apply w_fault_wf | exact w_fault_meta_restart]. Qed.
 
-(* ---------- the hypothesis crash_cut_ok (meta block of a failed unit incomplete at the crash) is
-   necessary for the current rollback order (docs truncated first): a COMPLETE meta block (write
-   succeeded, its fsync failed) with the docs block already cut, crash, start, bulk 3, start:
+(* ---------- the rollback order before commit 5db7f73 (docs file cut first): a COMPLETE meta block
+   (write succeeded, its fsync failed) whose docs block is already cut, crash, start, bulk 3, start:
    the acknowledged document 3 is unreadable and document 2's ID returns document 3's bytes.
-   Not reachable with a failing write (RLIMIT/ENOSPC leave the block incomplete); reported. ---------- *)
-Example C01_rollback_order_hazard :
-  ~ crash_cut_ok (HFaultCrash wb2 0 37) /\
-  final_fetch (run wdm (w_fault_crash_hist 0 37)) (d_id wd3) = Some FetchErr /\
-  final_fetch (run wdm (w_fault_crash_hist 0 37)) (d_id wd2) = Some (Body (d_body wd3)).
+   With the meta file cut first (current code, `fault_crash`) the same crash point is harmless. ---------- *)
+Example C01_rollback_order_v0_refuted :
+  final_fetch (run_from wdm w_hazard_state [HRestart; HBulk wb3; HRestart]) (d_id wd3) = Some FetchErr /\
+  final_fetch (run_from wdm w_hazard_state [HRestart; HBulk wb3; HRestart]) (d_id wd2) = Some (Body (d_body wd3)) /\
+  final_fetch (run wdm (w_fault_crash_hist 39 0)) (d_id wd3) = Some (Body (d_body wd3)) /\
+  final_fetch (run wdm (w_fault_crash_hist 0 37)) (d_id wd3) = Some (Body (d_body wd3)).
 Proof.
-  split; [cbn; apply Nat.lt_irrefl |]. exact w_rollback_order_hazard.
+  destruct w_rollback_order_hazard as (A & B). destruct w_rollback_meta_first as (C & D & _).
+  split; [exact A |]. split; [exact B |]. split; [exact C | exact D].
 Qed.
